@@ -139,7 +139,7 @@ func (s *omniSvc) stop() string {
 
 func execOmni(s omniSched, dir string, seed int64) ([]any, error) {
 	tag := s.ID
-	p := world.Params{Logs: []string{"l1", "l2"}, MaxSize: 3, NBranch: 2, ForkAt: []int{1}, MaxLines: 6, NWitKeys: 2, Seed: seed, RunTag: tag, Sigma: s.Sigma,
+	p := world.Params{Logs: []string{"l1", "l2"}, MaxSize: len(s.Sigma) - 1, NBranch: 2, ForkAt: []int{1}, MaxLines: 6, NWitKeys: 2, Seed: seed, RunTag: tag, Sigma: s.Sigma,
 		Origins: map[string]string{}}
 	for i, t := range s.Types {
 		if t == "sumdb" {
